@@ -41,6 +41,9 @@ pub struct Case {
     /// what answers behind the recorders of custom / ibc / gov / stargate (see Model::module_cfg)
     #[serde(default)]
     pub module_cfg: [u8; 4],
+    /// plug the adversarial address generator into the wasm keeper (see contract::AdvAddrGen)
+    #[serde(default)]
+    pub adv_addr: bool,
     pub ops: Vec<Op>,
 }
 
@@ -130,12 +133,21 @@ impl Sim {
         model.fault_plan = world.0.borrow().fault_plan.clone();
         // address of an instantiation whose entry point never ran (so that nothing could be learned):
         // ask the repo's default generator, with the model's instance count
+        let adv = case.adv_addr;
+        if adv {
+            let vapi = MockApiBech32::new(prefix);
+            model.addr_validator = Some(Box::new(move |a: &str| {
+                use cosmwasm_std::Api;
+                vapi.addr_validate(a).is_ok()
+            }));
+        }
         model.addr_fallback = Some(Box::new(move |code_id, instance_id, salted| {
             use cosmwasm_std::Api;
             use cw_multi_test::AddressGenerator;
             let mut dummy = SimStorage::new();
             let gen = cw_multi_test::SimpleAddressGenerator;
             match salted {
+                None if adv => crate::contract::adv_address(&fallback_api, code_id, instance_id).map(|a| a.to_string()).ok(),
                 None => gen.contract_address(&fallback_api, &mut dummy, code_id, instance_id).map(|a| a.to_string()).ok(),
                 Some((checksum_hex, creator, salt)) => {
                     let cs = cosmwasm_std::HexBinary::from_hex(&checksum_hex).ok()?;
@@ -187,7 +199,10 @@ impl Sim {
             .with_api(api)
             .with_storage(SimStorage::new())
             .with_bank(RecBank { inner: BankKeeper::new(), world: world.clone() })
-            .with_wasm(RecWasm { inner: WasmKeeper::new(), world: world.clone() })
+            .with_wasm(RecWasm {
+                inner: if case.adv_addr { WasmKeeper::new().with_address_generator(crate::contract::AdvAddrGen) } else { WasmKeeper::new() },
+                world: world.clone(),
+            })
             .with_custom(RecCustom { world: world.clone(), inner: custom_inner })
             .with_staking(RecStaking { inner: StakeKeeper::new(), world: world.clone() })
             .with_distribution(RecDistr { inner: DistributionKeeper::new(), world: world.clone() })
@@ -557,6 +572,24 @@ impl Sim {
                 self.v(&["C09"], "supply_mismatch", format!("{}: Supply({}) = {}, model (sum of all balances) {}", what, d, got, exp));
             }
         }
+        // staking: shown delegations of every known address equal the (integral) model ledger
+        let validators = self.model.names.validators.clone();
+        for a in &addrs {
+            if !self.model.valid_addr(a) || a == POOL {
+                continue;
+            }
+            for v in &validators {
+                let got = match self.app.wrap().query_delegation(a.clone(), v.clone()) {
+                    Ok(Some(d)) => d.amount.amount.u128(),
+                    Ok(None) => 0,
+                    Err(_) => u128::MAX,
+                };
+                let exp = self.model.s.stake.delegations.get(&(a.clone(), v.clone())).copied().unwrap_or(0);
+                if got != exp {
+                    self.v(&["C01", "C02", "C10", "C17"], "delegation_mismatch", format!("{}: delegation of {} to {} shows {}, model {}", what, a, v, got, exp));
+                }
+            }
+        }
         // registry
         let contracts: Vec<(String, MContract)> = self.model.s.contracts.iter().map(|(a, c)| (a.clone(), c.clone())).collect();
         for (a, c) in &contracts {
@@ -581,9 +614,6 @@ impl Sim {
         // contract storage: dump == model
         let empty = BTreeMap::new();
         for a in addrs.iter() {
-            if !self.model.valid_addr(a) {
-                continue;
-            }
             let dump: BTreeMap<Vec<u8>, Vec<u8>> = self.app.dump_wasm_raw(&Addr::unchecked(a.clone())).into_iter().collect();
             let exp = self.model.s.kv.get(a).unwrap_or(&empty);
             if &dump != exp {
@@ -701,7 +731,7 @@ impl Sim {
                 let m = MsgSpec::Send { to: to.clone(), coins: coins.clone() };
                 self.op_helper(*sender, &m)
             }
-            Op::Block { set, dh, dt } => self.op_block(*set, *dh, *dt),
+            Op::Block { set, dh, dt, abs_h } => self.op_block(*set, *dh, *dt, *abs_h),
             Op::External { target, k, v } => self.op_external(target, k, v.as_deref()),
             Op::Queries => self.op_queries(),
         }
@@ -1054,10 +1084,11 @@ impl Sim {
         self.viol.is_empty()
     }
 
-    fn op_block(&mut self, set: bool, dh: u64, dt: u64) -> bool {
+    fn op_block(&mut self, set: bool, dh: u64, dt: u64, abs_h: Option<u64>) -> bool {
         let before = self.pre_step();
         let cur = self.app.block_info();
-        let new = BlockInfo { height: cur.height + dh, time: cur.time.plus_seconds(dt), chain_id: cur.chain_id.clone() };
+        let new_height = abs_h.unwrap_or_else(|| cur.height.saturating_add(dh));
+        let new = BlockInfo { height: new_height, time: cur.time.plus_seconds(dt), chain_id: cur.chain_id.clone() };
         let app = &mut self.app;
         let nb = new.clone();
         let real = if set {
@@ -1068,7 +1099,7 @@ impl Sim {
         } else {
             guarded(|| {
                 app.update_block(|b| {
-                    b.height += dh;
+                    b.height = new_height;
                     b.time = b.time.plus_seconds(dt);
                 });
                 Ok(vec![])
